@@ -12,7 +12,8 @@ PROP = 'C04'
 EXHAUSTIVE = False
 RULE = ('per entry point: all prefixes of the positive reply, all single-byte substitutions from {00,01,7F,80,FF,b+1,b-1} at every '
         'position, extensions by 1..6 bytes of 00/FF/random, all strings of length <= 2 (quick) / 3 (thorough) over '
-        '{00,01,02,05,08,09,10,7F,80,FF} after the response id, random strings up to 64 bytes; x {tolerant, strict} configuration. '
+        '{00,01,02,05,08,09,10,7F,80,FF} after the response id, random strings up to 64 bytes, every position set to a boundary value and '
+        'followed by a 300-byte tail (length fields honoured); x {tolerant, strict} configuration. '
         'non-trivial = the reply carries the right response id and is not the unmodified positive reply (distinct case lines)')
 ASSUMPTIONS = ['DID codecs are the library-style fixed-length / read-all codecs (user codec code raising on decode is outside the property)',
                'termination: every call returned within the per-case budget of the worker (no hang); the Coq theorem shows the fuel of every loop suffices']
@@ -32,6 +33,14 @@ def replies_for(inv, tier, rnd):
         out.append(p + b'\x00' * k)
         out.append(p + b'\xff' * k)
         out.append(p + bytes(rnd.randrange(256) for _ in range(k)))
+    # a length / width / count field changed AND enough bytes behind it for the announced length to be honoured: every
+    # position set to a value just past the supported widths or large, followed by a long tail
+    tails = (b'\x00' * 300, b'\xff' * 300, bytes(range(1, 256)) + bytes(range(45, 0, -1)))
+    for i in range(1, len(p)):
+        for v in (0x00, 0x08, 0x09, 0x0A, 0x10, 0x7F, 0x80, 0xFF):
+            for t in tails:
+                out.append(p[:i] + bytes([v]) + p[i + 1:] + t)
+                out.append(p[:i] + bytes([v]) + t)
     rsid = p[:1]
     n = 2 if tier == 'quick' else 3
     strs = [b'']
